@@ -268,3 +268,38 @@ fn c15_padding_unit() {
     kani::cover!(pad == 7 && sink.failed && sink.pos == 3, "failure in the middle of the padding");
     kani::cover!(sink.intr_at < sink.calls && ok, "interrupted call retried");
 }
+
+
+/// C15 (`write` as a whole, smallest mapping): `ProguardCache::write` on the empty
+/// record stream with a symbolic sink schedule. The canonical bytes are those the
+/// same writer delivers to a `Vec`. Success => exactly the canonical bytes were
+/// accepted; a non-retryable sink failure => `write` fails, only a prefix delivered.
+/// (Larger mappings are out of reach, DESIGN.md section 2b; this still runs the real
+/// header `write_all`, all four padding steps and the `?` chain, and refutes e.g. an
+/// internal buffer that is never flushed.)
+#[kani::proof]
+#[kani::unwind(26)]
+fn c15_write_empty_mapping() {
+    let recs: [crate::verif_support::inject::Item; 0] = [];
+    let src = inject::set(&recs);
+    let mapping = ProguardMapping::new(src);
+    let mut canon: Vec<u8> = Vec::new();
+    assert!(ProguardCache::write(&mapping, &mut canon).is_ok());
+    assert!(canon.len() == 24, "C09: an empty mapping is a bare 24-byte header");
+    let mut sink = ScheduledSink::any(&canon);
+    let r = ProguardCache::write(&mapping, &mut sink);
+    match r {
+        Ok(()) => {
+            assert!(!sink.failed, "C15: success although the sink failed");
+            assert!(sink.pos == 24 && !sink.mismatch, "C15: success but not exactly the canonical bytes");
+        }
+        Err(e) => {
+            assert!(sink.failed, "C15: failure although the sink never failed");
+            assert!(sink.pos <= 24 && !sink.mismatch, "C15: more than a prefix delivered");
+            core::mem::forget(e);
+        }
+    }
+    kani::cover!(sink.calls == 6 && sink.pos == 24 && !sink.failed, "header delivered in 6 chunks");
+    kani::cover!(sink.failed && sink.pos == 10, "failure after 10 bytes");
+    core::mem::forget(canon);
+}
